@@ -147,7 +147,7 @@ def native_env():
     return env
 
 
-def native_run_harness(items, timeout=120):
+def native_run_harness(items, timeout=1800):
     """items: [{harness, params}] -> results from the real code under /venv/bin/python"""
     p = subprocess.run([NATIVE_PY, os.path.join(VERIF_ROOT, "vf/native/build.py")], input=json.dumps({"items": items}),
                        capture_output=True, text=True, env=native_env(), timeout=timeout, cwd=VERIF_ROOT)
